@@ -127,6 +127,9 @@ def solve_lp(
     # Extract LP coefficients (use cache if available)
     if problem._lp_cache is not None:
         lp_data = problem._lp_cache
+        # Bounds are re-read on every solve: assigning v.lb / v.ub does not
+        # invalidate the problem's caches
+        lp_data.bounds = LinearProgramExtractor().extract_bounds(variables)
     else:
         extractor = LinearProgramExtractor()
         try:
